@@ -335,6 +335,7 @@ fn next_chunk(s: &mut Sched, left: usize) -> usize {
             }
         }
         Sched::Random(r, m) => r.usize(1, *m),
+        Sched::Page(p) => *p,
     };
     n.clamp(1, left.max(1)).min(left.max(1))
 }
